@@ -21,6 +21,7 @@ type verifEnv13 struct {
 	srv  *httptest.Server
 	keys []string
 	ok   map[string]bool
+	timesOut map[string]bool
 
 	cancelID string
 	cancelFn func()
@@ -57,6 +58,11 @@ func verifNewEnv13() *verifEnv13 {
 			e.cancelFn()
 			return
 		}
+		if e.timesOut[id] {
+			// stall for longer than the per-list timeout
+			time.Sleep(900 * time.Millisecond)
+			return
+		}
 		if !e.ok[id] {
 			http.Error(w, "fail", http.StatusInternalServerError)
 			return
@@ -89,4 +95,5 @@ func (e *verifEnv13) attach(s *Default) {
 }
 func (e *verifEnv13) setIndex(k []string)            { e.keys = k }
 func (e *verifEnv13) setOutcomes(ok map[string]bool) { e.ok = ok }
+func (e *verifEnv13) setTimeouts(t map[string]bool) { e.timesOut = t }
 func (e *verifEnv13) setCancelAt(id string, cancel func()) { e.cancelID, e.cancelFn = id, cancel }
